@@ -660,4 +660,48 @@ theorem buildReq_total (f : Format) (conf lines : List (Str × Str)) (e : Entry)
   | jsonarr => exact enrich_no_panic _ _ (WF_foldl_hset _ wc lines).nonempty
   | raw => exact enrich_no_panic _ _ wc.nonempty
 
+/-! ## who asks to close the connection -/
+
+theorem enrich_close (r r' : Req) (H : Hdr) (h : enrich r H = some r') : r'.close = r.close := by
+  induction H generalizing r with
+  | nil => simp [enrich] at h; subst h; rfl
+  | cons kv rest ih =>
+    obtain ⟨k, vs⟩ := kv
+    simp only [enrich] at h
+    split at h
+    · exact ih r h
+    · split at h
+      · split at h
+        · split at h
+          · exact absurd h (by simp)
+          · have := ih _ h; simpa using this
+        · exact ih r h
+      · have := ih _ h; simpa using this
+
+theorem connKey_ne_hostKey : connKey ≠ hostKey := by decide
+
+/-- a request whose entry and option say nothing about `Connection` never asks to close -/
+theorem close_of_buildReq (f : Format) (conf lines : List (Str × Str)) (e : Entry) (r : Req)
+    (h : buildReq f (confHdr conf) lines e = some r)
+    (hn : expHeader f conf (seenLines f lines) connKey = none) : wantsClose r = false := by
+  have hh := header_of_buildReq f conf lines e r h connKey connKey_ne_hostKey
+  rw [hn] at hh
+  simp only [wantsClose, hh, Option.getD_none, hasTok, List.any_nil, Bool.or_false]
+  cases f with
+  | raw =>
+    simp only [buildReq] at h
+    rw [enrich_close _ _ _ h]
+    have hv : valsOf (lines.map fun kv => (kv.1, trimHTTP kv.2)) connKey = [] := by
+      simp only [expHeader, fileVals, seenLines] at hn
+      cases hq : valsOf (lines.map fun kv => (kv.1, trimHTTP kv.2)) connKey with
+      | nil => rfl
+      | cons a t => simp [hq] at hn
+    simp only [readRequest, readRequestWith, hget_foldl_hadd, hv, hget_nil, Option.getD_none, decodeClose, goShouldClose,
+      hasTok, List.any_nil]
+    split <;> simp
+  | uri => simp only [buildReq, buildAmmo] at h; rw [enrich_close _ _ _ h]; rfl
+  | uripost => simp only [buildReq, buildAmmo] at h; rw [enrich_close _ _ _ h]; rfl
+  | jsonline => simp only [buildReq, buildAmmo] at h; rw [enrich_close _ _ _ h]; rfl
+  | jsonarr => simp only [buildReq, buildAmmo] at h; rw [enrich_close _ _ _ h]; rfl
+
 end Pandora.Proofs.C09
